@@ -22,6 +22,7 @@ import (
 	"context"
 	"encoding/json"
 	"fmt"
+	"math"
 	"os"
 	"os/exec"
 	"path/filepath"
@@ -50,6 +51,7 @@ type scenario struct {
 	Events   []string `json:"events"`
 	Par      int      `json:"par,omitempty"`     // number of simultaneous invocations at the end (kind par)
 	Wrapper  bool     `json:"wrapper,omitempty"` // undisturbed runs go through bin/newpolicy -> bin/sudo-newpolicy
+	Src      string   `json:"src,omitempty"`     // which stream made it (corpus, kill, random, …): counted, not part of the input
 }
 
 func (sc scenario) line() string {
@@ -349,6 +351,44 @@ type runInfo struct {
 	Nested    []*runInfo
 	Wrapper   string // stderr of bin/newpolicy if the run went through the wrapper
 	OrphanRan bool   // killed while the child of its last logged command ran; that command was completed by the orphan
+	LockHeld  string // nested invocations: "1" = somebody held the flock on policies/LOCK when it was started (probed by the hook), "0" = free, "" = not probed
+}
+
+// writerSpan: the time span in which this invocation ran commands that write below policies/ or to
+// the repository (children: netspoc, git, mv, rm, ln, mkdir, touch) -- taken from the trace, no
+// matter how the script spells its locking.  ok=false: it never did.
+func (r *runInfo) writerSpan(gitFn bool) (from, to float64, ok bool) {
+	for i, c := range r.Cmds {
+		f := strings.Fields(c)
+		if len(f) > 0 && f[0] != "flock" && isExternal(c, gitFn) {
+			if !ok {
+				from, ok = r.Times[i], true
+			}
+			to = r.Times[i]
+		}
+	}
+	if ok && len(r.Times) > 0 {
+		to = r.Times[len(r.Times)-1]
+		if r.OrphanRan {
+			to = math.Inf(1) // the orphan finishes its command after everything else of this event
+		}
+	}
+	return
+}
+
+// lockProbe: is the flock on policies/LOCK taken right now?  A new open file description, LOCK_EX|LOCK_NB,
+// released at once.  Only called while the script under test stands still in its DEBUG trap.
+func lockProbe(sbDir string) string {
+	f, err := os.OpenFile(filepath.Join(sbDir, "policies", "LOCK"), os.O_RDWR, 0)
+	if err != nil {
+		return "0" // no lock file yet: nobody can hold it
+	}
+	defer f.Close()
+	if err := syscall.Flock(int(f.Fd()), syscall.LOCK_EX|syscall.LOCK_NB); err != nil {
+		return "1"
+	}
+	syscall.Flock(int(f.Fd()), syscall.LOCK_UN)
+	return "0"
 }
 
 func (r *runInfo) show() string {
@@ -471,7 +511,15 @@ func collect(sbDir, tag string, exit string, plan []planItem) *runInfo {
 				j, _ := strconv.Atoi(it.Act[2:])
 				np = []planItem{{j, "K"}}
 			}
-			r.Nested = append(r.Nested, collect(sbDir, ntag, strings.TrimSpace(string(data)), np))
+			fl := strings.Fields(string(data))
+			if len(fl) == 0 {
+				continue
+			}
+			nr := collect(sbDir, ntag, fl[0], np)
+			if len(fl) > 1 {
+				nr.LockHeld = strings.TrimPrefix(fl[1], "held=")
+			}
+			r.Nested = append(r.Nested, nr)
 		}
 	}
 	return r
@@ -530,12 +578,13 @@ func hookMain(args []string) int {
 				j, _ := strconv.Atoi(act[2:])
 				np = []planItem{{j, "K"}}
 			}
+			held := lockProbe(sbDir)
 			cmd, _, err := startScript(t, sbDir, env, ntag, np, false)
 			exit := "start-error"
 			if err == nil {
 				exit = waitScript(cmd)
 			}
-			os.WriteFile(filepath.Join(sbDir, "result."+ntag), []byte(exit+"\n"), 0644)
+			os.WriteFile(filepath.Join(sbDir, "result."+ntag), []byte(exit+" held="+held+"\n"), 0644)
 		}
 	}
 	return 0
@@ -830,8 +879,24 @@ type oracleState struct {
 }
 
 type finding struct {
-	pred string
-	what string
+	pred  string
+	what  string
+	attrs map[string]any // further signature attributes: window, via, symptom, exit, …
+	ev    int            // index of the event after which it was seen
+}
+
+func fnd(pred, what string, kv ...any) finding {
+	f := finding{pred: pred, what: what, attrs: map[string]any{}}
+	for i := 0; i+1 < len(kv); i += 2 {
+		f.attrs[kv[i].(string)] = kv[i+1]
+	}
+	return f
+}
+
+// cut: what the oracle knows about the history right before this event -- per event, nothing sticky
+type cut struct {
+	staleBy  string // window of the kill that left a `next` whose HEAD equals the remote head ("" = none)
+	raceLost bool   // a run had a user commit right before its `git push` and was killed between `mv next pN` and `ln -s`; no run has ended normally since
 }
 
 // classifyKill: which window of the script did a killed run stop in (from the REAL trace)?
@@ -884,8 +949,14 @@ func classifyKill(r *runInfo) string {
 	return "other"
 }
 
-func (os_ *oracleState) check(o *obs, before *obs, ev string, r *runInfo, staleBy string, raceLost bool) []finding {
+func (os_ *oracleState) check(o *obs, before *obs, ev string, r *runInfo, c cut) []finding {
 	var fs []finding
+	isRun := strings.HasPrefix(ev, "r:") || ev == "par"
+	undisturbed := ev == "r:"
+	exit := ""
+	if r != nil {
+		exit = r.Exit
+	}
 	// 1. current absent or compiled
 	if o.Cur != "-" {
 		ok := false
@@ -895,7 +966,7 @@ func (os_ *oracleState) check(o *obs, before *obs, ev string, r *runInfo, staleB
 			}
 		}
 		if !ok {
-			fs = append(fs, finding{"current_not_compiled", "current -> p" + o.Cur + " which is not a directory with a compile stamp and a good source"})
+			fs = append(fs, fnd("current_not_compiled", "current -> p"+o.Cur+" which is not a directory with a compile stamp and a good source"))
 		}
 	}
 	// 1b. the code of the current policy was produced by ITS OWN successful compile from ITS OWN src:
@@ -903,41 +974,60 @@ func (os_ *oracleState) check(o *obs, before *obs, ev string, r *runInfo, staleB
 	if o.Cur != "-" {
 		for _, d := range o.Dirs {
 			if strconv.Itoa(d.N) == o.Cur && d.HasStamp && !d.CodeOK {
-				fs = append(fs, finding{"current_code_not_from_own_compile",
-					"the code below current -> p" + o.Cur + " is not what a compile of its own src produces (stamp or device files of another revision)"})
+				fs = append(fs, fnd("current_code_not_from_own_compile",
+					"the code below current -> p"+o.Cur+" is not what a compile of its own src produces (stamp or device files of another revision)"))
 			}
 		}
 	}
-	// 2./3. a change of current goes to a compiled good tree with a strictly larger number
+	// did an invocation of THIS event finish a successful compile of its own?  Seen on the real tree: a
+	// policy directory with a compile stamp that was not there before, or a `next` moved into an
+	// existing directory.
+	if os_.dirs == nil {
+		os_.dirs, os_.nested = map[int]bool{}, map[int]bool{}
+	}
+	ownCompile := false
+	for _, d := range o.Dirs {
+		if d.HasStamp && d.SrcGood && !os_.dirs[d.N] || d.Nested && !os_.nested[d.N] {
+			ownCompile = true
+		}
+	}
+	// 2./3. `current` changes (re-pointed OR removed) only through a run that compiled successfully
+	// itself, and then to a strictly larger number -- judged after EVERY event
 	if o.Cur != os_.lastCur {
+		if !isRun {
+			fs = append(fs, fnd("commit_changed_current", "a commit event changed current from "+os_.lastCur+" to "+o.Cur))
+		} else if !ownCompile {
+			what := "current changed from " + os_.lastCur + " to " + o.Cur
+			if o.Cur == "-" {
+				what = "current (p" + os_.lastCur + ") vanished"
+			}
+			fs = append(fs, fnd("current_changed_without_own_successful_compile",
+				what+" in an event in which no invocation produced a compiled policy directory of its own",
+				"vanished", o.Cur == "-", "exit", exit, "head_good", before.Remote.Good))
+		}
 		if o.Cur != "-" {
 			n, _ := strconv.Atoi(o.Cur)
 			for _, m := range os_.promoted {
 				if m >= n {
-					pred := "policy_number_not_increasing"
-					if raceLost {
-						pred = "policy_number_reused_after_failed_push_and_kill_before_ln"
+					pred, kv := "policy_number_not_increasing", []any{"symptom", "link_number"}
+					if c.raceLost {
+						pred, kv = "policy_number_reused_after_failed_push_and_kill_before_ln",
+							[]any{"symptom", "link_number", "window", "mv_ln", "via", "race_commit_before_push"}
 					}
-					fs = append(fs, finding{pred, fmt.Sprintf("current switched to p%d after p%d had been current", n, m)})
+					fs = append(fs, fnd(pred, fmt.Sprintf("current switched to p%d after p%d had been current", n, m), kv...))
 					break
 				}
 			}
 			os_.promoted = append(os_.promoted, n)
 		}
-		if strings.HasPrefix(ev, "c:") {
-			fs = append(fs, finding{"commit_changed_current", "a commit event changed current"})
-		}
 		os_.lastCur = o.Cur
 	}
 	// 3b. every new policy directory gets a number larger than every number used before;
 	// a `next` that appears INSIDE an existing pN means `mv next pN` reused the number N
-	if os_.dirs == nil {
-		os_.dirs, os_.nested = map[int]bool{}, map[int]bool{}
-	}
 	for _, d := range o.Dirs {
 		if !os_.dirs[d.N] {
 			if d.N <= os_.maxDir {
-				fs = append(fs, finding{"policy_number_not_increasing", fmt.Sprintf("new directory p%d after p%d existed", d.N, os_.maxDir)})
+				fs = append(fs, fnd("policy_number_not_increasing", fmt.Sprintf("new directory p%d after p%d existed", d.N, os_.maxDir), "symptom", "directory_number"))
 			}
 			os_.dirs[d.N] = true
 			if d.N > os_.maxDir {
@@ -946,15 +1036,19 @@ func (os_ *oracleState) check(o *obs, before *obs, ev string, r *runInfo, staleB
 		}
 		if d.Nested && !os_.nested[d.N] {
 			os_.nested[d.N] = true
-			pred := "policy_number_reused_other"
-			if raceLost {
-				pred = "policy_number_reused_after_failed_push_and_kill_before_ln"
+			pred, kv := "policy_number_reused_other", []any{"symptom", "nested_directory"}
+			if c.raceLost {
+				pred, kv = "policy_number_reused_after_failed_push_and_kill_before_ln",
+					[]any{"symptom", "nested_directory", "window", "mv_ln", "via", "race_commit_before_push"}
 			}
-			fs = append(fs, finding{pred, fmt.Sprintf("mv next p%d landed inside the existing directory p%d: the number was used twice", d.N, d.N)})
+			fs = append(fs, fnd(pred, fmt.Sprintf("mv next p%d landed inside the existing directory p%d: the number was used twice", d.N, d.N), kv...))
 		}
 	}
-	// 5. promotion after an undisturbed run that ends with exit 0
-	if r != nil && strings.HasPrefix(ev, "r:") && ev == "r:" && r.Exit == "0" && before.Remote.Good {
+	// 5. an undisturbed run started in a quiescent state (the harness starts a run only after every
+	// process of the event before has ended) makes the newest compiling revision current -- whatever
+	// its exit status.  "compiling revision": the remote head before the run (the run then adds its
+	// POLICY commit) or, after a revert, the remote head after it.
+	if r != nil && undisturbed && (before.Remote.Good || o.Remote.Good) {
 		newest := false
 		for _, d := range o.Dirs {
 			if strconv.Itoa(d.N) == o.Cur && d.HasStamp && d.SrcGood && d.HeadIsR && d.StampOK {
@@ -962,16 +1056,19 @@ func (os_ *oracleState) check(o *obs, before *obs, ev string, r *runInfo, staleB
 			}
 		}
 		if !newest {
-			pred := "not_promoted_other"
+			pred, kv := "not_promoted_other", []any{"exit", exit, "window", c.staleBy}
 			switch {
-			case staleBy == "clone_commit":
-				pred = "killed_between_clone_and_commit"
-			case staleBy == "push_promote":
-				pred = "killed_between_push_and_promote"
-			case raceLost:
-				pred = "policy_number_reused_after_failed_push_and_kill_before_ln"
+			case exit != "0":
+				pred = "undisturbed_run_failed_and_did_not_promote"
+			case c.staleBy == "clone_commit":
+				pred, kv = "killed_between_clone_and_commit", []any{"exit", exit, "window", c.staleBy, "via", "stale_next_head_is_remote"}
+			case c.staleBy == "push_promote":
+				pred, kv = "killed_between_push_and_promote", []any{"exit", exit, "window", c.staleBy, "via", "stale_next_head_is_remote"}
+			case c.raceLost:
+				pred, kv = "policy_number_reused_after_failed_push_and_kill_before_ln",
+					[]any{"symptom", "not_promoted", "window", "mv_ln", "via", "race_commit_before_push"}
 			}
-			fs = append(fs, finding{pred, "undisturbed run exited 0, the newest revision compiles, but current (" + o.Cur + ") is not that revision"})
+			fs = append(fs, fnd(pred, "undisturbed run in a quiescent state ended with "+exit+", the newest revision compiles, but current ("+o.Cur+") is not that revision", kv...))
 		}
 	}
 	return fs
@@ -1003,8 +1100,17 @@ func runScenario(t *tools, name string, sc scenario, drv *Nadrv) *caseResult {
 	prev := sb.observe()
 	staleBy := ""     // window of the kill that left a `next` whose HEAD equals the remote
 	racePush := false // this run had a user commit injected right before `git push` (push rejected)
-	raceLost := false // … and was killed after `mv next pN` and before `ln -s` (sticky)
-	for _, ev := range sc.Events {
+	raceLost := false // … and was killed after `mv next pN` and before `ln -s`; cleared by the first run that is not killed
+	add := func(evNo int, fs ...finding) {
+		for _, f := range fs {
+			f.ev = evNo
+			if f.attrs == nil {
+				f.attrs = map[string]any{}
+			}
+			cr.findings = append(cr.findings, f)
+		}
+	}
+	for evNo, ev := range sc.Events {
 		parts := strings.Split(ev, ":")
 		var r *runInfo
 		switch parts[0] {
@@ -1050,34 +1156,32 @@ func runScenario(t *tools, name string, sc scenario, drv *Nadrv) *caseResult {
 		}
 		cr.impl = append(cr.impl, line)
 		// oracle
-		for _, f := range orc.check(o, prev, ev, r, staleBy, raceLost) {
-			cr.findings = append(cr.findings, f)
+		add(evNo, orc.check(o, prev, ev, r, cut{staleBy, raceLost})...)
+		if r != nil && r.Exit != "killed" {
+			raceLost = false // judged once: what a LATER run does wrong is not this finding any more
 		}
 		if r != nil {
-			// 4. a nested invocation that found the lock held exits 1; a nested invocation never
-			// works while the outer one is past its flock (checked through the trace: the nested
-			// run must stop right after `flock -n 9`)
+			// 4. at most one invocation works at a time.  Judged without looking at how the script
+			// spells its locking: (a) the hook that starts a second invocation first probes the flock
+			// on policies/LOCK itself -- if somebody holds it, the second invocation must end with exit 1
+			// without having run a single writing command; (b) the writing spans of the outer and of a
+			// nested invocation (first writing command .. last command, from the two traces) must not
+			// overlap.
+			of, ot, ook := r.writerSpan(t.gitFn)
 			for _, n := range r.Nested {
-				held := false
-				for i, c := range r.Cmds {
-					if strings.HasPrefix(c, "flock -n 9") && i+1 < len(r.Cmds) {
-						// the outer run got past flock before the nested one started?
-						if len(n.Times) > 0 && r.Times[i+1] < n.Times[0] {
-							held = true
-						}
-					}
+				nf, nt, nok := n.writerSpan(t.gitFn)
+				switch {
+				case n.LockHeld == "1" && (nok || n.Exit != "1" && n.Exit != "killed"):
+					add(evNo, fnd("second_invocation_worked_while_locked",
+						"a second invocation started while the flock on policies/LOCK was held did not stop with exit 1 before its first writing command (exit "+n.Exit+")",
+						"via", "lock_probe", "nested_exit", n.Exit, "nested_wrote", nok))
+				case ook && nok && of < nf && nt < ot:
+					add(evNo, fnd("second_invocation_worked_while_locked",
+						"a second invocation ran writing commands between two writing commands of the first one (or before its orphaned child had finished)",
+						"via", "trace_overlap", "nested_exit", n.Exit, "nested_wrote", nok))
 				}
-				if held {
-					worked := false
-					for _, c := range n.Cmds {
-						if strings.HasPrefix(c, "prepare_next") || strings.HasPrefix(c, "uptodate") {
-							worked = true
-						}
-					}
-					if n.Exit != "1" && n.Exit != "killed" || worked {
-						cr.findings = append(cr.findings, finding{"second_invocation_worked_while_locked",
-							"a second invocation started while the first held the lock did not stop with exit 1"})
-					}
+				if n.LockHeld != "" {
+					cr.counts["nested-lock-probe:held="+n.LockHeld]++
 				}
 			}
 			// remember in which window a killed run (this one or a nested one) left a `next`
@@ -1097,7 +1201,7 @@ func runScenario(t *tools, name string, sc scenario, drv *Nadrv) *caseResult {
 					want = "Current policy is"
 				}
 				if !strings.Contains(r.Wrapper, want) {
-					cr.findings = append(cr.findings, finding{"wrapper_reports_other_policy", "bin/newpolicy printed " + strings.TrimSpace(r.Wrapper) + " but current is " + o.Cur})
+					add(evNo, fnd("wrapper_reports_other_policy", "bin/newpolicy printed "+strings.TrimSpace(r.Wrapper)+" but current is "+o.Cur))
 				}
 				cr.counts["wrapper-output-checked"]++
 			}
@@ -1109,10 +1213,30 @@ func runScenario(t *tools, name string, sc scenario, drv *Nadrv) *caseResult {
 	if sc.Kind == "par" {
 		cr.parallel(sb, orc, prev)
 		cr.model = drv.Ask(sc.line() + ";r:")
+		cr.predicted()
 		return cr
 	}
 	cr.model = drv.Ask(sc.line())
+	cr.predicted()
 	return cr
+}
+
+// predicted: does the model of the script show, for the event of each finding, exactly what the
+// real run showed (exit status, trace, tree)?  "yes": the failure is what the model of this script
+// predicts on this input; "no": the real script did something else; "n/a": model not comparable.
+func (cr *caseResult) predicted() {
+	ms := strings.Split(cr.model, ";")
+	for i := range cr.findings {
+		f := &cr.findings[i]
+		v := "n/a"
+		if !modelStale && cr.sc.Kind == "seq" && f.ev < len(cr.impl) {
+			v = "no"
+			if f.ev < len(ms) && ms[f.ev] == cr.impl[f.ev] {
+				v = "yes"
+			}
+		}
+		f.attrs["model_predicts"] = v
+	}
 }
 
 // parallel: start sc.Par invocations at the same moment; afterwards the tree must be what ONE
@@ -1142,30 +1266,45 @@ func (cr *caseResult) parallel(sb *sandbox, orc *oracleState, prev *obs) {
 		exits = append(exits, exit)
 		r := collect(sb.dir, j.tag, exit, nil)
 		cr.counts["par-exit:"+exit]++
-		for i, c := range r.Cmds {
-			if strings.HasPrefix(c, "flock -n 9") && i+1 < len(r.Cmds) && !strings.HasPrefix(r.Cmds[i+1], "exit 1") {
-				spans = append(spans, span{r.Times[i+1], r.Times[len(r.Times)-1]})
-			}
+		// working phase from the trace: first writing command .. last command (no matter how the
+		// script spells flock / its exit)
+		if f, to, ok := r.writerSpan(sb.t.gitFn); ok {
+			spans = append(spans, span{f, to})
 		}
 	}
+	evNo := len(cr.sc.Events)
 	sort.Slice(spans, func(i, j int) bool { return spans[i].from < spans[j].from })
 	for i := 1; i < len(spans); i++ {
 		if spans[i].from < spans[i-1].to {
-			cr.findings = append(cr.findings, finding{"two_workers_at_the_same_time", "two invocations were past flock at the same time"})
+			cr.findings = append(cr.findings, finding{pred: "two_workers_at_the_same_time", what: "the writing phases of two invocations started at the same time overlap", attrs: map[string]any{"via": "trace_overlap"}, ev: evNo})
 		}
 	}
 	sort.Strings(exits)
 	for _, e := range exits {
 		if e != "0" && e != "1" {
-			cr.findings = append(cr.findings, finding{"parallel_exit_status", "parallel invocation ended with " + e})
+			cr.findings = append(cr.findings, finding{pred: "parallel_exit_status", what: "parallel invocation ended with " + e, attrs: map[string]any{"exit": e}, ev: evNo})
 		}
 	}
 	if len(exits) > 0 && exits[0] != "0" {
-		cr.findings = append(cr.findings, finding{"parallel_exit_status", "no parallel invocation ended with 0"})
+		cr.findings = append(cr.findings, finding{pred: "parallel_exit_status", what: "no parallel invocation ended with 0", attrs: map[string]any{"exit": "none-0"}, ev: evNo})
 	}
 	o := sb.observe()
-	for _, f := range orc.check(o, prev, "par", nil, "", false) {
+	for _, f := range orc.check(o, prev, "par", nil, cut{}) {
+		f.ev = evNo
 		cr.findings = append(cr.findings, f)
+	}
+	// after the parallel start the database must be what one run makes of it
+	if prev.Remote.Good {
+		newest := false
+		for _, d := range o.Dirs {
+			if strconv.Itoa(d.N) == o.Cur && d.HasStamp && d.SrcGood && d.HeadIsR && d.StampOK {
+				newest = true
+			}
+		}
+		if !newest {
+			cr.findings = append(cr.findings, finding{pred: "not_promoted_other", what: "after invocations started at the same time in a quiescent state the newest compiling revision is not current (" + o.Cur + ")",
+				attrs: map[string]any{"exit": strings.Join(exits, ","), "window": "parallel"}, ev: evNo})
+		}
 	}
 	cr.impl = append(cr.impl, o.show())
 }
@@ -1256,6 +1395,8 @@ var corpus = []scenario{
 	{Kind: "seq", Events: []string{"r:", "c:g:-:1", "r:38=K", "r:", "r:", "c:g:-:1", "r:"}},
 	// race commit right before git push, then link lost, then number reused
 	{Kind: "seq", Events: []string{"r:", "c:g:-:1", "r:47=cg,52=K", "r:", "r:"}},
+	// … and long after that episode a hand-edited (smaller) POLICY number: whatever goes wrong now is NOT that finding
+	{Kind: "seq", Events: []string{"r:", "c:g:-:1", "r:47=cg,52=K", "r:", "r:", "c:g:2:1", "r:", "r:"}},
 	// bad commit is reverted (system user without e-mail) / not reverted (with e-mail)
 	{Kind: "seq", Events: []string{"r:", "c:b:-:1", "r:", "c:b:-:1", "c:b:-:1", "r:", "r:", "c:g:-:1", "r:"}},
 	{Kind: "seq", SysEmail: true, Events: []string{"r:", "c:b:-:1", "r:", "r:", "c:g:-:1", "r:"}},
@@ -1314,6 +1455,22 @@ func runC19(ctx *Ctx) *Result {
 
 	var scs []scenario
 	scs = append(scs, corpus...)
+	// some seeded random scenarios right after the corpus, so that the quick tier reaches them before
+	// its time budget ends (the rest of the random stream comes last)
+	for i := 0; i < ctx.N(16, 40); i++ {
+		sc := genScenario(ctx.Rng.Fork(), 6)
+		sc.Src = "random"
+		scs = append(scs, sc)
+	}
+	// … and a few parallel starts
+	for i := 0; i < 3; i++ {
+		rng := ctx.Rng.Fork()
+		sc := scenario{Kind: "par", SysEmail: rng.Bool(), Par: 2 + rng.Intn(3), Events: []string{"r:", "c:g:-:1"}}
+		if i == 2 {
+			sc.Events = []string{genCommit(rng)}
+		}
+		scs = append(scs, sc)
+	}
 
 	// every kill position of base histories: the length of the undisturbed run is measured on the real script
 	bases := [][]string{
@@ -1387,7 +1544,9 @@ func runC19(ctx *Ctx) *Result {
 	}
 	nRandom := ctx.N(120, 1500)
 	for i := 0; i < nRandom; i++ {
-		scs = append(scs, genScenario(ctx.Rng.Fork(), ctx.N(6, 9)))
+		sc := genScenario(ctx.Rng.Fork(), ctx.N(6, 9))
+		sc.Src = "random"
+		scs = append(scs, sc)
 	}
 
 	// run in parallel workers, record in order
@@ -1427,6 +1586,21 @@ func runC19(ctx *Ctx) *Result {
 			if st2, _ := mismatch(again); st2 == "" {
 				again.counts["inconclusive: first run disagreed, the serial re-run did not"]++
 				res.Notes = append(res.Notes, "not reproduced when run alone (taken as environment failure): "+scs[i].line()+" — "+st)
+			}
+			// the re-run may only CONFIRM: what the oracle saw on the real tree in the first run is a
+			// hard verdict (the tree was judged as it was, whatever the hooks did) and stays reported
+			for _, f := range cr.findings {
+				dup := false
+				for _, g := range again.findings {
+					if g.pred == f.pred && g.ev == f.ev {
+						dup = true
+					}
+				}
+				if !dup {
+					f.attrs["seen_in"] = "first_run_only"
+					again.findings = append(again.findings, f)
+					again.counts["finding kept from the first run of a re-run case"]++
+				}
 			}
 			results[i] = again
 		}
@@ -1492,6 +1666,9 @@ func record(res *Result, cr *caseResult) {
 		res.CountN(k, v)
 	}
 	res.Count("kind:" + sc.Kind)
+	if sc.Src != "" {
+		res.Count("stream:" + sc.Src)
+	}
 	res.Count(fmt.Sprintf("events:%02d", len(sc.Events)))
 	implS := strings.Join(cr.impl, ";")
 	model := cr.model
@@ -1502,7 +1679,11 @@ func record(res *Result, cr *caseResult) {
 	}
 	for _, f := range cr.findings {
 		res.Count("oracle:" + f.pred)
-		res.Fail(map[string]any{"pred": f.pred}, f.what+" — scenario "+sc.line(), sc)
+		sig := map[string]any{"pred": f.pred}
+		for k, v := range f.attrs {
+			sig[k] = v
+		}
+		res.Fail(sig, fmt.Sprintf("%s — after event %d of scenario %s", f.what, f.ev, sc.line()), sc)
 	}
 	if len(res.Samples) < 3 && nontrivial {
 		res.Sample(map[string]any{"scenario": sc.line(), "impl": implS})
